@@ -383,9 +383,15 @@ class SymInt(object):
         return (self // o, self % o)
 
     def __truediv__(self, o):
+        st = get_state()
+        if st is not None and getattr(st, "real_floats", False) and isinstance(o, (int, float, SymInt, SymReal)):
+            return SymReal(z3.ToReal(self.e)) / o          # A-REAL: float arithmetic over the reals
         raise Unsupported("true division of symbolic ints (float result)")
 
     def __rtruediv__(self, o):
+        st = get_state()
+        if st is not None and getattr(st, "real_floats", False) and isinstance(o, (int, float)):
+            return SymReal(z3real(o)) / SymReal(z3.ToReal(self.e))
         raise Unsupported("true division of symbolic ints (float result)")
 
     def __pow__(self, o):
